@@ -34,7 +34,7 @@ func runX(h *hx.H, prop string) {
 	case "C29":
 		h.Rule = "same inputs as C28; oracle: the natural tokens in stream order are contiguous from 0 to len(text), their texts concatenate to the input, and every open bracket token is fused with a close token of the matching kind that lies after it (or the lexer reported an error); non-trivial = input with a bracket or an unterminated string/comment"
 	case "C30":
-		h.Rule = "same inputs as C28 plus separator/trivia variants, with zero, one and two final newlines; for every input without error diagnostics: PrintFile(round-trip options) == input and the concatenation of Print(decl) over the top-level declarations is a prefix of the input whose remainder is trivia only; non-trivial = accepted input containing a comment, tab or CR"
+		h.Rule = "same inputs as C28 plus separator/trivia variants, with zero, one and two final newlines, plus every arrangement of <=2 (thorough <=3) non-default trivia values from a 14-value set in the slots of three declaration skeletons (message literal without separators, compact options, rpc signatures, ranges, map types); for every input without error diagnostics: PrintFile(round-trip options) == input and the concatenation of Print(decl) over the top-level declarations is a prefix of the input whose remainder is trivia only; non-trivial = accepted input containing a comment, tab or CR"
 	}
 	run := func(src string) {
 		idx, ok := h.NextN()
@@ -64,12 +64,28 @@ func runX(h *hx.H, prop string) {
 			run(s + " // c")
 			run("\t" + strings.ReplaceAll(s, " ", "\r\n") + "\r\n")
 			run("/* c */ " + strings.ReplaceAll(s, " ", " /* d */ ") + "\n")
+			run(strings.ReplaceAll(s, " ", "\n") + "\n")
+			run(strings.ReplaceAll(s, " ", "\n\n") + "\n")
+			run(strings.ReplaceAll(s, " ", " // c\n") + "\n")
+			run(strings.ReplaceAll(s, " ", "  ") + "\n")
 		}
 	})
 	forEachTokenString(celAlphabet, nTok, " ", func(s string) {
 		run("option (x) = " + s + ";\n")
 		run("message M { option (buf.validate.message).cel = { expression: " + s + " }; }\n")
+		if prop == "C30" {
+			run("message M {\noption (x) = {\nexpression:\n" + strings.ReplaceAll(s, " ", "\n") + "\n}\n;\n}\n")
+		}
 	})
+	if prop == "C30" {
+		dev, win := 2, 4
+		if h.Thorough() {
+			dev, win = 3, 3
+		}
+		for _, skel := range layoutSkeletons {
+			forEachLayout(skel, layoutTrivia, dev, win, run)
+		}
+	}
 	names, texts := corpus()
 	_ = names
 	limit := 40000
@@ -282,14 +298,14 @@ func checkPrint(h *hx.H, fail func(string, string, ...any), file *ast.File, src 
 	}
 	if got != src {
 		// the recorded finding: only the final newline run is normalised to exactly one newline
-		sig := "print-roundtrip"
 		const ws = " \t\r\n\f\v"
+		sig := "print-roundtrip:" + diffClass(src, got)
 		if strings.TrimRight(src, ws) == strings.TrimRight(got, ws) && strings.HasSuffix(got, "\n") {
 			// everything up to the trailing whitespace run is reproduced; only that run differs and the output ends in a newline
 			sig = "print-normalises-final-newlines"
 		}
-		fail(sig, "PrintFile gives %q", truncate([]byte(got)))
-		if sig == "print-roundtrip" {
+		fail(sig, "PrintFile gives %q; %s", truncate([]byte(got)), diffWindow(src, got))
+		if sig != "print-normalises-final-newlines" {
 			return
 		}
 	}
@@ -341,4 +357,78 @@ func stripComments(s string) string {
 		}
 	}
 	return b.String()
+}
+
+// diffClass names the kind of difference between a source text and its printout, so that
+// distinct printer defects get distinct signatures: "text" when non-blank characters were
+// lost, added or changed (with the first differing pair), otherwise "blanks" with the
+// non-blank characters on either side of the first differing whitespace run.
+func diffClass(src, got string) string {
+	isWS := func(c byte) bool { return c == ' ' || c == '\t' || c == '\r' || c == '\n' || c == '\f' || c == '\v' }
+	strip := func(s string) string {
+		var b strings.Builder
+		for i := 0; i < len(s); i++ {
+			if !isWS(s[i]) {
+				b.WriteByte(s[i])
+			}
+		}
+		return b.String()
+	}
+	cls := func(c byte) string {
+		switch {
+		case c == 0:
+			return "edge"
+		case c == '_' || c >= '0' && c <= '9' || c >= 'a' && c <= 'z' || c >= 'A' && c <= 'Z':
+			return "word"
+		case c >= 0x80:
+			return "nonascii"
+		}
+		return string(c)
+	}
+	a, b := strip(src), strip(got)
+	if a != b {
+		i := 0
+		for i < len(a) && i < len(b) && a[i] == b[i] {
+			i++
+		}
+		var x, y byte
+		if i < len(a) {
+			x = a[i]
+		}
+		if i < len(b) {
+			y = b[i]
+		}
+		return "text:" + cls(x) + "->" + cls(y)
+	}
+	i := 0
+	for i < len(src) && i < len(got) && src[i] == got[i] {
+		i++
+	}
+	// widen to the whole whitespace run around the first difference in the source
+	lo := i
+	for lo > 0 && isWS(src[lo-1]) {
+		lo--
+	}
+	hi := i
+	for hi < len(src) && isWS(src[hi]) {
+		hi++
+	}
+	var l, r byte
+	if lo > 0 {
+		l = src[lo-1]
+	}
+	if hi < len(src) {
+		r = src[hi]
+	}
+	return "blanks:" + cls(l) + "_" + cls(r)
+}
+
+// diffWindow renders the surroundings of the first difference between two texts.
+func diffWindow(a, b string) string {
+	i := 0
+	for i < len(a) && i < len(b) && a[i] == b[i] {
+		i++
+	}
+	lo := max(0, i-30)
+	return fmt.Sprintf("first difference at byte %d: source %q, printed %q", i, a[lo:min(len(a), i+30)], b[lo:min(len(b), i+30)])
 }
